@@ -635,6 +635,22 @@ def _replay_resume(cex, model, props, bad, tmp):
             info["resumed"].append({"checkpoint": k, "iteration": ck["iteration"], "route": route, "betas": r.get("betas")})
     if "file" in routes:
         info["crash"] = _replay_crash(cex, model, props, bad, tmp, ref)
+    if "live_after_fault" in routes:
+        for c in range(1, ref.ll_calls + 1):
+            w = World(cex, model).build()
+            w.fail_at = c
+            w.run(checkpoint_callback=w.callback, checkpoint_every=1)
+            if w.error is None or not w.checkpoints:
+                continue
+            ck = w.checkpoints[-1]
+            res = World(cex, model, tag=f"l{c}", rng=CRng(model, "other", 77)).build()
+            res.kernel_offset = ck["n_acc"]
+            res.run(resume_from=ck["live_state"], checkpoint_callback=res.callback, checkpoint_every=1)
+            bad += res.bad
+            tag = f"[fault at likelihood call {c}, resumed from the last in-memory checkpoint (iteration {ck['iteration']})]"
+            if "C11" in props:
+                compare(ref, res, bad, tag)
+            oracle_run(res, props - {"C17"}, bad, tag=tag)
     return info
 
 
